@@ -2,7 +2,7 @@
   Model of how typelib NAMES a type by a forward reference and finds it again:
 
     * `inspection.qualname` / `inspection.name`              (src/typelib/py/inspection.py:226-278)
-    * `refs.forwardref(<object or text>, module=…)`           (src/typelib/py/refs.py:29-67, as of c0135c0)
+    * `refs.forwardref(<object or text>, module=…)`           (src/typelib/py/refs.py:30-70, as of befc63c)
       with `_resolve_module_name` when the module is known      (refs.py:139-143: returns it unchanged)
     * `refs.evaluate(ref)`                                     (refs.py:83-110 → `typing.ForwardRef._evaluate`:
       `eval(text, sys.modules[ref.__forward_module__].__dict__)`)
@@ -21,8 +21,10 @@
       (it owns no bindings; the `<locals>` marker follows the name of one), or a NewType / TypeAliasType
       (`alias`: a named object that no statement binds under its declared name).
     * Texts are `List Char`; `str.replace(pat, "")` is `stripAll pat` (left to right, non-overlapping, at
-      CHARACTER level: `"Xshapes.A".replace("shapes.", "")` is `"XA"`, and the model says so);
-      `str.split(".")` is `splitDots`; `".".join` is `joinDots`.
+      CHARACTER level); `re.sub(rf"(?<![\w.]){re.escape(module)}\.", "", text)` (refs.py:61, befc63c) is
+      `stripQual module`: left to right, non-overlapping, a match only where the character before it IN THE ORIGINAL
+      text is not `[A-Za-z0-9_.]` (`\w` of Python also takes non-ASCII letters and digits: identifiers outside ASCII are
+      outside the model); `str.split(".")` is `splitDots`; `".".join` is `joinDots`.
     * `evaluateRef` resolves the dotted text segment by segment: the first segment in the `__dict__` of the
       reference's module (`NameError` when missing), every further one among the bindings owned by the
       object reached (`AttributeError`); an empty segment is a `SyntaxError`.
@@ -32,8 +34,8 @@
   expressions), `forwardref` without a module (frame walking, `frames.py`), `typing._type_check` of the
   value found (every modelled object passes it).
 
-  The section `Mutants` holds three WRONG ways of naming — the tree before c0135c0 and the seeded changes
-  C09g, C16g of /verif/seeded — used by Props/Naming.lean to show that its statements are not vacuous and
+  The section `Mutants` holds WRONG ways of naming — the tree before befc63c (`str.replace` of every `"<module>."`), the
+  tree before c0135c0 and the seeded changes C09g, C16g of /verif/seeded — used by Props/Naming.lean to show that its statements are not vacuous and
   answered by the driver beside `forwardrefOfClass` (demonstrations only; no check depends on them).
 -/
 import TypelibModel.Model.Basic
@@ -74,8 +76,23 @@ def noOcc (pat : Str) : Str → Bool
 
 def dotFree (s : Str) : Bool := !s.contains '.'
 
-/-- what a Python identifier guarantees, as far as this model cares: not empty, no dot, no `<` -/
-def identLike (s : Str) : Bool := !s.isEmpty && !s.contains '.' && !s.contains '<'
+/-- `\w` of the regex, ASCII part -/
+def isWordChar (c : Char) : Bool := c.isAlphanum || c == '_'
+
+/-- the class `[\w.]` of the lookbehind of refs.py:61 -/
+def isQualChar (c : Char) : Bool := isWordChar c || c == '.'
+
+/-- an (ASCII) Python identifier, as far as this model cares: not empty, word characters only -/
+def identLike (s : Str) : Bool := !s.isEmpty && s.all isWordChar
+
+/-- `stripQGo pat k blocked s`: skip `k` characters, then copy `s` leaving out every occurrence of `pat` that is not
+    preceded — in the original text — by a character of `[\w.]`; `blocked` says whether the previous character is one. -/
+def stripQGo (pat : Str) : Nat → Bool → Str → Str
+  | _, _, [] => []
+  | k + 1, _, c :: cs => stripQGo pat k (isQualChar c) cs
+  | 0, blocked, c :: cs =>
+    if !blocked && pat.isPrefixOf (c :: cs) then stripQGo pat (pat.length - 1) (isQualChar c) cs
+    else c :: stripQGo pat 0 (isQualChar c) cs
 
 /-- the segment Python puts after the name of a function in the `__qualname__` of what is defined inside it -/
 def localsMarker : Str := ['<', 'l', 'o', 'c', 'a', 'l', 's', '>']
@@ -83,8 +100,12 @@ def localsMarker : Str := ['<', 'l', 'o', 'c', 'a', 'l', 's', '>']
 /-- `"<locals>."` (inspection.py:275) -/
 def localsPat : Str := localsMarker ++ ['.']
 
-/-- `f"{module}."` (refs.py:59) -/
+/-- `f"{module}."`: what `re.escape(module) + r"\."` matches -/
 def modulePat (m : Str) : Str := m ++ ['.']
+
+/-- `re.sub(rf"(?<![\w.]){re.escape(m)}\.", "", s)` (refs.py:61): the module qualifier is removed only where it is a whole
+    dotted name. -/
+def stripQual (m s : Str) : Str := stripQGo (modulePat m) 0 false s
 
 /-! ### namespaces -/
 
@@ -199,12 +220,12 @@ def isQualified (o : Obj) : Bool := rawQualname o != some (qualnameOf o)
 /-- `refs.forwardref(obj)` for an object that is not a `str` (refs.py:45-60; `module` not given, so it is
     `obj.__module__`; `_resolve_module_name` returns a given module unchanged). -/
 def forwardrefOfClass (o : Obj) : Ref :=
-  { text := if isQualified o then stripAll (modulePat o.module) (qualnameOf o) else qualnameOf o,
+  { text := if isQualified o then stripQual o.module (qualnameOf o) else qualnameOf o,
     module := o.module }
 
-/-- `refs.forwardref(text, module=m)` (refs.py:51-60): every `"<m>."` is removed from the text. -/
+/-- `refs.forwardref(text, module=m)` (refs.py:52-61): every `"<m>."` that is a whole dotted name is removed from the text. -/
 def forwardrefOfText (text m : Str) : Ref :=
-  { text := stripAll (modulePat m) text, module := m }
+  { text := stripQual m text, module := m }
 
 def hasEmptySeg (segs : List Str) : Bool := segs.any List.isEmpty
 
@@ -298,6 +319,15 @@ def wf (ns : NS) : Bool :=
 
 /-! ### Mutants -/
 section Mutants
+
+/-- refs.forwardref(text, module=m) before befc63c: `text.replace(f"{m}.", "")`, every occurrence, at character level. -/
+def forwardrefOfTextPreBefc63c (text m : Str) : Ref :=
+  { text := stripAll (modulePat m) text, module := m }
+
+/-- refs.forwardref(obj) before befc63c (after c0135c0): the same replacement where the name is not the `__qualname__`. -/
+def forwardrefPreBefc63c (o : Obj) : Ref :=
+  { text := if isQualified o then stripAll (modulePat o.module) (qualnameOf o) else qualnameOf o,
+    module := o.module }
 
 /-- refs.forwardref before c0135c0: every `"<module>."` is removed from the name of a class, too. -/
 def forwardrefPreFix (o : Obj) : Ref :=
